@@ -63,3 +63,40 @@ func SpecHashSlot(key string) uint16 {
 //@     invariant bounds: 0 <= i && i <= len(buf)
 //@     invariant prefix: crc == SpecCrc16(buf, i)
 //@   assert after store crc: table_step [reveal=SpecCrc16Step hide=SpecCrc16]: crc == SpecCrc16Step(SpecCrc16(buf, i), buf[i])
+
+// ---- CRC-64 (Jones polynomial, reflected: the checksum of RDB files and DUMP payloads) ------
+
+// SpecCrc64Bit is one shift/xor round of the reflected CRC-64/Jones (poly 0xad93d23594c935a9,
+// reflected form 0x95ac9329ac4bc9b5, LSB first).
+func SpecCrc64Bit(c uint64) uint64 {
+	if c&1 != 0 {
+		return c>>1 ^ 0x95ac9329ac4bc9b5
+	}
+	return c >> 1
+}
+
+// SpecCrc64Step folds one input byte into the CRC, bit by bit.
+func SpecCrc64Step(crc uint64, b byte) uint64 {
+	return SpecCrc64Bit(SpecCrc64Bit(SpecCrc64Bit(SpecCrc64Bit(SpecCrc64Bit(SpecCrc64Bit(SpecCrc64Bit(SpecCrc64Bit(crc ^ uint64(b)))))))))
+}
+
+// SpecCrc64 continues the CRC `init` over s[0:n].
+func SpecCrc64(s string, n int, init uint64) uint64 {
+	if n <= 0 {
+		return init
+	}
+	return SpecCrc64Step(SpecCrc64(s, n-1, init), s[n-1])
+}
+
+//@ func digest.update
+//@   arith bv
+//@   properties C03 C04
+//@   nopanic
+//@   opaque SpecCrc64Step
+//@   requires nonnil: d != nil
+//@   modifies d.crc
+//@   ensures crc_spec: d.crc == SpecCrc64(string(p), len(p), old(d.crc))
+//@   loop 1:
+//@     invariant idx: 0 - 1 <= rangeindex && rangeindex < len(p)
+//@     invariant prefix: d.crc == SpecCrc64(string(p), rangeindex + 1, old(d.crc))
+//@   assert after store b: table_step [reveal=SpecCrc64Step hide=SpecCrc64]: crc64_table[byte(d.crc) ^ b] ^ (d.crc >> 8) == SpecCrc64Step(d.crc, b)
